@@ -236,7 +236,24 @@ func settle(base sample) (delta sample, stable bool) {
 
 // ---- running one evaluation
 
+func (r *runner) evalOnWorker(j job) (res result) {
+	defer func() {
+		if p := recover(); p != nil {
+			res.Panic = fmt.Sprintf("%v | %s", p, strings.Join(strings.Fields(string(debug.Stack())), " "))
+		}
+	}()
+	res.Err = r.ev.Eval(parse.Source{Name: "[c40]", Code: j.code}, eval.EvalCfg{Interrupts: j.ctx, Ports: []*eval.Port{nil, r.out, r.out}})
+	return res
+}
+
+type job struct {
+	code string
+	ctx  context.Context
+}
+
 type runner struct {
+	jobs      chan job
+	results   chan result
 	ev        *eval.Evaler
 	out       *eval.Port // the caller's ports 1 and 2: /dev/null opened for writing once, outside every measured window
 	cancelAt  int32 // cancel the context at the k-th pipeline.enter (0 = never)
@@ -252,6 +269,12 @@ func newRunner() *runner {
 		panic(err)
 	}
 	r.out = &eval.Port{File: null, Chan: eval.BlackholeChan}
+	r.jobs, r.results = make(chan job), make(chan result, 1)
+	go func() {
+		for j := range r.jobs {
+			r.results <- r.evalOnWorker(j)
+		}
+	}()
 	eval.VerifTrace = func(ev *eval.Evaler, fm *eval.Frame, point string) {
 		if ev != r.ev || point != "pipeline.enter" {
 			return
@@ -285,21 +308,15 @@ func (r *runner) eval(code string, cancelAt int, inflight time.Duration) result 
 	if inflight > 0 {
 		timer = time.AfterFunc(inflight, func() { r.cancelled.Store(true); cancel() })
 	}
-	done := make(chan result, 1)
-	go func() {
-		var res result
-		defer func() {
-			if p := recover(); p != nil {
-				res.Panic = fmt.Sprintf("%v | %s", p, strings.Join(strings.Fields(string(debug.Stack())), " "))
-			}
-			done <- res
-		}()
-		res.Err = r.ev.Eval(parse.Source{Name: "[c40]", Code: code}, eval.EvalCfg{Interrupts: ctx, Ports: []*eval.Port{nil, r.out, r.out}})
-	}()
+	// the evaluation runs on the runner's one long-lived worker goroutine (part of every baseline), so
+	// that no goroutine of the check's own starts or ends inside a measured window
+	r.jobs <- job{code, ctx}
 	var res result
+	watchdog := time.NewTimer(180 * time.Second)
 	select {
-	case res = <-done:
-	case <-time.After(180 * time.Second):
+	case res = <-r.results:
+		watchdog.Stop()
+	case <-watchdog.C:
 		return result{Timeout: true}
 	}
 	if timer != nil {
